@@ -306,6 +306,7 @@ class Case:
                 opts += [("ok", "both", "ok"), ("ok", "none", "ok")]            # hard link
             else:
                 opts += [("ok", "rsync-only", "ok"), ("ok", "none", "ok"),      # rsync / internal copy
+                         ("digestMismatch", "none", "truncate"),                 # internal copy that silently writes half the file
                          ("failedCheckSrc", "rsync-only", "fail-src"), ("failedCheckSrc", "rsync-only", "partial"),
                          ("failedNoCheck", "rsync-only", "fail-mkstemp"), ("failedNoCheck", "rsync-only", "fail-write"),
                          ("failedCheckSrc", "rsync-only", "hang")]
@@ -356,6 +357,20 @@ class Case:
         line = f"w.op pull {self.req_str(req_row)} {dest.id} {transfer}"
         av_before = db.StorageNode.get(id=dest.id).avail_gb          # (the task updates the row object it was given in place)
         dst_before = self.w.file_on(dest, f)
+        import shutil as _sh
+        real_copy2 = _sh.copy2
+        if mode == "truncate":
+            def short_copy2(srcp, dstp, *a, **k):
+                out = real_copy2(srcp, dstp, *a, **k)
+                with open(out, "rb+") as fh_:          # the copy "succeeds" but half of the bytes never reach the disk
+                    fh_.truncate(max(0, os.path.getsize(out) // 2))
+                return out
+            _sh.copy2 = short_copy2
+            if src_bytes is None:
+                transfer = "failedCheckSrc"
+            elif len(src_bytes) < 2:
+                transfer = "ok" if len(src_bytes) == 0 else "digestMismatch"
+            line = f"w.op pull {self.req_str(req_row)} {dest.id} {transfer}"
         try:
             if f.size_b is not None:
                 io.reserve_bytes(f.size_b)
@@ -373,6 +388,7 @@ class Case:
             q.task_done(item[1])
         finally:
             os.environ["PATH"] = old_path
+            _sh.copy2 = real_copy2
         row = db.ArchiveFileCopyRequest.get(id=req_row.id)
         dst_after = self.w.file_on(dest, f)
         with dmod._mutex:
